@@ -733,6 +733,13 @@ def fake_proc_backend_class():
             self.advance_workers(trial_ids)
             return super().fetch_status_results(trial_ids)
 
+        def busy_trial_ids(self):
+            # workers also make progress between the poll and this query (Tuner asks it when
+            # start_jobs_without_delay=False): a job may write its last reports and exit in between
+            if self.plan.get("progress_at_busy_query", True) and self.plan.get("burst", 3) > 1:
+                self.advance_workers()
+            return super().busy_trial_ids()
+
         def alive_unkilled(self):
             return [(p.trial_id, p.run_no) for p in self.all_procs if p.returncode is None and not p.killed]
 
